@@ -74,6 +74,7 @@ def run(prog, rep, tier, repo):
     check_chunk_remainder(prog, rep, 'chunk-remainder', lambda k: 'distributions::' in k)
     rep.trusted.append('alea::f64() lies in [0, 1)')
     d11_total(prog, rep)
+    d12_uniform_support(prog, rep)
     # a sampler that builds a shifted twin of its object with struct-update syntax must not carry derived constants of the old parameters
     from . import c18
     c18.check_literals(prog, rep, 'literal-coherent')
@@ -97,6 +98,65 @@ VALID = {
     't::T': lambda a: a['dof'] > 0,
     'uniform::Uniform': lambda a: a['lower'] <= a['upper'],
 }
+
+
+def d12_uniform_support(prog, rep):
+    """every draw of Uniform(lower, upper) lies in [lower, upper], decided on exact witnesses: the expression `sample` returns is evaluated
+    in IEEE double arithmetic with the generator's value u read as a number of [0, 1), for the degenerate laws lower == upper the property
+    names (where the only point of the support must come out bit for bit) and for a few ordinary intervals with u away from the ends."""
+    from ..precond import tev, Frame, Uneval, NC, _nk
+    k = '<%suniform::Uniform as %sDistribution>::sample' % (DS, DS)
+    f = prog.func(k)
+    key = 'support-witness:Uniform'
+    if f is None:
+        rep.viol('support-witness', key, 'Uniform::sample disappeared')
+        rep.floor('support-witness', 1, 'Uniform::sample')
+        return
+    rep.touch(k)
+    adt = prog.pdb.adts.get(DS + 'uniform::Uniform')
+    fnames = [fl['name'] for fl in adt['variants'][0]['fields']] if adt else []
+    if 'lower' not in fnames or 'upper' not in fnames:
+        rep.undecided('support-witness', key, 'fields lower / upper not found', site_of(f.body), proof=False)
+        rep.floor('support-witness', 1, 'Uniform::sample')
+        return
+    il, iu = fnames.index('lower'), fnames.index('upper')
+    me = ('arg', 1, None)
+    ncx = NC(prog)
+    us = [0.0, 0.1, 0.2, 0.3, 0.37, 0.5, 0.6, 0.7, 0.77, 0.9, 0.99, 1.0 - 2.0 ** -53]
+    pts = [(a, a) for a in (0.1, 0.3, 1.0 / 3.0, 0.7, 1.1, 2.9, -0.1, -1.3, 1e-3, 1e3 + 0.1, 5e-324, 1.7976931348623157e308)]
+    pts += [(-1.3, 2.9), (0.0, 1.0), (0.4, 0.95), (-5.0, -1.0)]
+    bad, used = None, 0
+    rets = f.return_values()
+    for lo, hi in pts:
+        for u in us:
+            if lo != hi and not (0.05 < u < 0.95):
+                continue          # ordinary intervals: rounding at the very ends is not judged here
+            env = {_nk(('field', me, il, None)): lo, _nk(('field', me, iu, None)): hi,
+                   '__fn__': {'alea::f64': (lambda u=u: u), 'alea::f64_in_range': (lambda a, b, u=u: a + (b - a) * u)}}
+            ctx = Frame(f, env=env, ncx=ncx)
+            try:
+                vals = [tev(r, ctx) for r in rets]
+            except Uneval:
+                continue
+            used += 1
+            for v in vals:
+                if not (isinstance(v, float) and lo <= v <= hi):
+                    bad = (lo, hi, u, v)
+                    break
+            if bad:
+                break
+        if bad:
+            break
+    for kk in ncx.visited:
+        rep.touch(kk)
+    if bad:
+        rep.viol('support-witness', key, 'Uniform(%r, %r).sample() returns %r when the generator yields u = %r: outside the support [%r, %r]%s' % (
+            bad[0], bad[1], bad[3], bad[2], bad[0], bad[1], ' (the degenerate law must return its only point)' if bad[0] == bad[1] else ''), site_of(f.body))
+    elif used:
+        rep.ok('support-witness', key, 'the returned expression stays in [lower, upper] on %d exact (bounds, u) witnesses, degenerate bounds included' % used)
+    else:
+        rep.undecided('support-witness', key, 'returned expression not evaluated on any witness', site_of(f.body), proof=False)
+    rep.floor('support-witness', 1, 'Uniform::sample')
 
 
 def d11_total(prog, rep):
